@@ -23,7 +23,8 @@ def heap_noise(seed: int):
     return keep
 
 
-STAGES = ["detection_results_json", "protoclusters", "gene_annotations", "areas", "record_json", "genbank", "refined_hits"]
+STAGES = ["detection_results_json", "protoclusters", "gene_annotations", "areas", "record_json", "genbank", "refined_hits",
+          "pfam_style_hits"]
 
 
 def run_case(case):
@@ -75,6 +76,17 @@ def run_case(case):
         got = refine_hmmscan_results([QR([HSP(h) for h in hsps])], case["hmm_lengths"])
         refined.append((gene, [(h.hit_id, h.query_start, h.query_end, h.bitscore) for h in got.get(gene, [])]))
     out.append(digest(repr(refined)))
+    # hmmer.remove_overlapping (PFAM-style hits) on the same tie-rich raw hits: equal normalised score, length and start
+    from antismash.common.hmmer import HmmerHit, remove_overlapping
+    kept = []
+    for gene, hsps in case["raw_hits"].items():
+        hits = [HmmerHit(location=f"[{s}:{e}]", label=gene, locus_tag=gene, domain=name, evalue=ev, score=score,
+                         identifier=f"PF{name}", description=name, protein_start=s, protein_end=e, translation="A" * (e - s))
+                for name, s, e, score, ev in hsps]
+        cutoffs = {f"PF{name}": 25. for name in "ABCD"}
+        result = remove_overlapping(hits, cutoffs, overlap_limit=10)
+        kept.append((gene, [(h.identifier, h.protein_start, h.protein_end, h.score) for h in result]))
+    out.append(digest(repr(kept)))
     orders = repr(list({h["p"] for hs in scene["hits"] for h in hs})) + repr(list(set(r["name"] for r in rules)))
     return out, digest(orders)
 
